@@ -69,8 +69,11 @@ func c18Run(c c18Case) Verdict {
 	var setupErr error
 	done := make(chan struct{})
 	go func() {
-		defer close(done)
-		defer r.Hub.Broadcast()
+		defer func() {
+			// close first, then wake the waiter (defers run last-in first-out)
+			close(done)
+			r.Hub.Broadcast()
+		}()
 		for ti, tx := range c.Txns {
 			if err := cl.Mail(fmt.Sprintf("s%d@x", ti), nil); err != nil {
 				setupErr = fmt.Errorf("txn %d Mail: %w", ti, err)
